@@ -112,6 +112,17 @@ def check_resolve(ctx, rig, regions, sessions, url, wit):
                            candidates=[(c[1], c[2], c[3].name, c[0].idx) for c in cands][:4]))
         return
     m, n, u, t = match
+    if t != CapType.TEMPORARY:
+        # resolution of anything but a one-shot capability is repeatable
+        try:
+            res2 = rig.session_manager.resolve_cap(url)
+            ctx.count("resolutions_repeated")
+            if res2 is None or (res2.cap_name, res2.base_url, res2.type) != (res.cap_name, res.base_url, res.type) or \
+                    (res2.region and res2.region()) is not (res.region and res.region()):
+                ctx.violation("resolution-not-repeatable", "resolving the same URL twice gave different attributions",
+                              dict(wit, url=url, first=(res.cap_name, res.base_url), second=None if res2 is None else (res2.cap_name, res2.base_url)))
+        except Exception as e:
+            ctx.violation("resolve-raises", "resolve_cap raised", dict(wit, url=url, exc=repr(e)[:300]))
     if t == CapType.TEMPORARY:
         # one-shot: consumed by this resolution
         m.grants.remove((n, u, t))
